@@ -27,7 +27,7 @@ BOUND = {"quick": "2 bases x {equilibrium, 3 amplitudes x 4 patterns, 2 scales} 
 ASSUMPTIONS = ["KKT tolerance 1e-9 x scale (default path); iterative back-ends: feasible and cost within (1+1e-4) ('lsq') / (1+1e-6) ('lsq_linear') of the certified optimum; scale = max(1,|A|max) x max(1,|b|max)",
                "'lsq_linear' is judged on consistent systems only (as the statement says)",
                "with allow_negatives=True a solution with negative tensions is only required to solve the square system exactly"]
-REQUIRED_TAGS = {"all": ["rawinv_only_last_negative", "rawinv_only_first_negative", "rawinv_only_multiplier_negative", "path:inv", "path:nnls-fallback", "path:lsq", "path:lsq_linear", "rhs:velocity", "unique", "square", "wide", "active_bound", "noisy", "fixture"]}
+REQUIRED_TAGS = {"all": ["rawinv_only_last_negative", "rawinv_only_first_negative", "rawinv_only_multiplier_negative", "path:inv", "path:nnls-fallback", "path:lsq", "path:lsq_linear", "rhs:velocity", "unique", "square", "wide", "active_bound", "noisy", "fixture", "angle_limited"]}
 
 
 def judge(r, method, allow_negatives, consistent, viol, known, tags):
@@ -35,6 +35,9 @@ def judge(r, method, allow_negatives, consistent, viol, known, tags):
     with fsutil.ref_math():
         x = np.array(r.forces, float)
         M = r.M
+        if len(x) != M.shape[1] and int((x == -1).sum()) == len(x) - M.shape[1]:
+            x = x[x != -1]          # interfaces excluded by an angle limit are reported as -1 at their own position (C16)
+            tags.append("angle_limited")
         rec = r.record
         if method == "fix_stress":
             return
@@ -184,7 +187,8 @@ class Solver(ProductSystem):
                 "neg": [False, True],
                 "method": [None, "lsq", "lsq_linear", "fix_stress"],
                 "map": [["m", 0.05, 0.02], ["id"]],
-                "order": self._orders(base)}
+                "order": self._orders(base),
+                "limit": ["inf", "excluding"]}
 
     def _orders(self, base):
         """cell insertion orders (an environment choice): they decide which interface is the first / last unknown"""
@@ -229,7 +233,11 @@ class Solver(ProductSystem):
                 return {"viol": [{"what": "ForSys construction raised", "detail": fsutil.exc_str(ex)}], "tags": tags, "cls": "exc"}
             r = SC.solve_frame(s, 0, at, infos[0], method=cfg["method"], allow_negatives=cfg["neg"], solve_kwargs={"b_matrix": "velocity"})
         else:
-            r = SC.solve_static(at, k=3, cmap=cm, method=cfg["method"], allow_negatives=cfg["neg"], post=post, lab=lab)
+            lim = np.inf
+            if cfg["limit"] == "excluding":
+                from checks import c10
+                lim = c10.angle_limit_for(at, cm) if len(at["C"]) >= 3 else np.inf
+            r = SC.solve_static(at, k=3, cmap=cm, method=cfg["method"], allow_negatives=cfg["neg"], post=post, lab=lab, angle_limit=lim)
         if cfg["method"] == "lsq_linear" and not consistent:
             return {"viol": [], "tags": tags + ["lsq_linear_inconsistent_no_verdict"], "cls": "lsq_linear-inconsistent", "outdom": True}
         if r.exc is not None:
